@@ -68,19 +68,19 @@ CHECKS = {
          "Every recorded history (8/16 goroutines contending on 3-4 ids, in-flight width 4/6, barriers every 30 calls, one Close per history, handlers calling back into the agent) is accepted by AgentLin, i.e. explainable by one sequential order respecting real-time order, including exactly-one-terminator; no race report; no stuck goroutine.",
          "Trusted: Go race detector (executed schedules only), atomic stamping, AgentCore, TLC. A history TLC cannot decide within its time budget is inconclusive."),
  "C10": (True, "DESIGN.md §4 C10",
-         'gate-level TLA+ model of the client (Client.tla: callers, reader, collector, closer, environment; pooled transaction objects with identity) model-checked exhaustively; the complete transition cover of three configurations replayed on a real Client through a delegating agent, scripted connection, virtual clock and scripted collector (one goroutine released per model action); the recorded event log judged by a TLA+ requirement monitor (ClientTrace.tla)',
+         'gate-level TLA+ model of the client (Client.tla: callers that are Start, Do or Indicate, reader, collector, closer, environment; pooled transaction objects and pooled Do wait handlers with identity; the client-table registration as an action of its own) model-checked exhaustively; the transition cover of five configurations plus simulated two-caller behaviours replayed on a real Client through a delegating agent, scripted connection, virtual clock, scripted collector and one verif-tagged gate hook (one goroutine released per model action; after a drift the schedule is followed as a script); free-running runs under the race detector; the recorded event log judged by a TLA+ requirement monitor (ClientTrace.tla), the real Agent\'s own history inside these runs by AgentTrace.tla against AgentCore',
          'Exactly-once completion: handler invocations <= 1 always, none after a Start error, exactly one (response / timeout / write error / closed) for every successful Start once Close has returned - checked by TLC on the design for all interleavings of one and two transactions and by the monitor on every replayed schedule, incl. failing writes, duplicate responses and Close at every point. Client.Do is a model action of its own (the caller waits in D_wait until its handler has finished; DoWaits, DoNotStuck): every replayed Do must stay blocked until the handler returned and come back afterwards; a panic inside a library goroutine is an event of the schedule it happened in (library-panic).',
          'Trusted: Client.tla as a gate-level transcription of client.go (conformance is checked: every replayed step must end at the gate the model predicts, drift = 0 on the unchanged tree); the gate controller (one runnable goroutine at a time); TLC. Known findings K2/K3/K4 are matched by narrow window signatures (known_findings.json). Two concurrent ids are model-checked; replay covers one id exhaustively.'),
  "C11": (True, "DESIGN.md §4 C11",
-         'gate-level TLA+ model of the client (Client.tla: callers, reader, collector, closer, environment; pooled transaction objects with identity) model-checked exhaustively; the complete transition cover of three configurations replayed on a real Client through a delegating agent, scripted connection, virtual clock and scripted collector (one goroutine released per model action); the recorded event log judged by a TLA+ requirement monitor (ClientTrace.tla)',
+         'gate-level TLA+ model of the client (Client.tla: callers that are Start, Do or Indicate, reader, collector, closer, environment; pooled transaction objects and pooled Do wait handlers with identity; the client-table registration as an action of its own) model-checked exhaustively; the transition cover of five configurations plus simulated two-caller behaviours replayed on a real Client through a delegating agent, scripted connection, virtual clock, scripted collector and one verif-tagged gate hook (one goroutine released per model action; after a drift the schedule is followed as a script); free-running runs under the race detector; the recorded event log judged by a TLA+ requirement monitor (ClientTrace.tla), the real Agent\'s own history inside these runs by AgentTrace.tla against AgentCore',
          "Bit-identical, bounded, on-schedule retransmissions: every write compared byte for byte with the message at Start (sizes 20..65535, caller overwrites its message after Start), count <= n+1, each retransmission's own clock reading beyond the previous deadline, timeout only after the last deadline, nothing written after the end - on every replayed schedule with clock ticks before/at/after each deadline.",
          'Trusted: Client.tla as a gate-level transcription of client.go (conformance is checked: every replayed step must end at the gate the model predicts, drift = 0 on the unchanged tree); the gate controller (one runnable goroutine at a time); TLC. Known findings K2/K3/K4 are matched by narrow window signatures (known_findings.json). Two concurrent ids are model-checked; replay covers one id exhaustively.'),
  "C12": (True, "DESIGN.md §4 C12",
-         'gate-level TLA+ model of the client (Client.tla: callers, reader, collector, closer, environment; pooled transaction objects with identity) model-checked exhaustively; the complete transition cover of three configurations replayed on a real Client through a delegating agent, scripted connection, virtual clock and scripted collector (one goroutine released per model action); the recorded event log judged by a TLA+ requirement monitor (ClientTrace.tla)',
+         'gate-level TLA+ model of the client (Client.tla: callers that are Start, Do or Indicate, reader, collector, closer, environment; pooled transaction objects and pooled Do wait handlers with identity; the client-table registration as an action of its own) model-checked exhaustively; the transition cover of five configurations plus simulated two-caller behaviours replayed on a real Client through a delegating agent, scripted connection, virtual clock, scripted collector and one verif-tagged gate hook (one goroutine released per model action; after a drift the schedule is followed as a script); free-running runs under the race detector; the recorded event log judged by a TLA+ requirement monitor (ClientTrace.tla), the real Agent\'s own history inside these runs by AgentTrace.tla against AgentCore',
          'Routing: a handler only ever sees events of its own transaction id and exactly the received datagram (sizes up to the 1024-byte read buffer); a decodable datagram the reader consumed reaches its transaction or the fallback handler; responses never go to the fallback handler while their transaction is in flight (outside the known window K3, which in the gated replay ends exactly where the retransmission path has re-registered the transaction); the reader goroutine survives every datagram (undecodable, shorter than a header, empty) until Close.',
          'Trusted: Client.tla as a gate-level transcription of client.go (conformance is checked: every replayed step must end at the gate the model predicts, drift = 0 on the unchanged tree); the gate controller (one runnable goroutine at a time); TLC. Known findings K2/K3/K4 are matched by narrow window signatures (known_findings.json). Two concurrent ids are model-checked; replay covers one id exhaustively.'),
  "C15": (True, "DESIGN.md §4 C15",
-         'gate-level TLA+ model of the client (Client.tla: callers, reader, collector, closer, environment; pooled transaction objects with identity) model-checked exhaustively; the complete transition cover of three configurations replayed on a real Client through a delegating agent, scripted connection, virtual clock and scripted collector (one goroutine released per model action); the recorded event log judged by a TLA+ requirement monitor (ClientTrace.tla)',
+         'gate-level TLA+ model of the client (Client.tla: callers that are Start, Do or Indicate, reader, collector, closer, environment; pooled transaction objects and pooled Do wait handlers with identity; the client-table registration as an action of its own) model-checked exhaustively; the transition cover of five configurations plus simulated two-caller behaviours replayed on a real Client through a delegating agent, scripted connection, virtual clock, scripted collector and one verif-tagged gate hook (one goroutine released per model action; after a drift the schedule is followed as a script); free-running runs under the race detector; the recorded event log judged by a TLA+ requirement monitor (ClientTrace.tla), the real Agent\'s own history inside these runs by AgentTrace.tla against AgentCore',
          'Close: exactly one successful Close (nil or CloseErr with injected agent/connection errors), reader and collector gone when it returns, connection closed exactly once or never under WithNoConnClose, no handler afterwards, Starts begun afterwards refused without writing - on every replayed schedule with Close at any point.',
          'Trusted: Client.tla as a gate-level transcription of client.go (conformance is checked: every replayed step must end at the gate the model predicts, drift = 0 on the unchanged tree); the gate controller (one runnable goroutine at a time); TLC. Known findings K2/K3/K4 are matched by narrow window signatures (known_findings.json). Two concurrent ids are model-checked; replay covers one id exhaustively.'),
  "C20": (True, "DESIGN.md §4 C20",
